@@ -132,6 +132,7 @@ def run_shard(params, rec):
             else:
                 writer = rng.choice(["set_mem instruction", "set_mem byte", "set_u8", "set_u16", "set_u32"])
                 jitter = jitlib.new_jitter(spec, backend, prog, opts)
+                all_regs = jitter.cpu.get_gpreg()
                 first = jitlib.run(spec, backend, prog, max_steps=300, jitter=jitter)
                 if first.budget or first.raised:
                     rec.count("discarded_first_run")
@@ -167,8 +168,7 @@ def run_shard(params, rec):
                 snap = jitlib.Outcome()
                 jitlib.snapshot(jitter, spec, snap)
                 # second run on the same jitter
-                for r, v in prog.regs.items():
-                    setattr(jitter.cpu, r, v)
+                jitter.cpu.set_gpreg(all_regs)       # every register back to its initial value
                 jitter.vm.set_exception(jitter.vm.get_exception() & 1)   # keep only CODE_AUTOMOD
                 jitter.cpu.set_exception(0)
                 got = rerun(jitlib, spec, prog, jitter)
@@ -192,6 +192,12 @@ def run_shard(params, rec):
             continue
         if "CalledProcessError" in (got.raised, want.raised, base.raised):
             rec.count("unsupported_by_backend")
+            continue
+        if got.raised or want.raised or base.raised:
+            # the patched bytes decode to an instruction the lifter does not support: translation of
+            # a block raises before anything runs, which depends on the block length (outside the
+            # "supported instructions" the properties quantify over)
+            rec.count("discarded_unsupported_patched_instruction")
             continue
         if got.budget or want.budget:
             rec.count("discarded_budget")
